@@ -66,3 +66,37 @@ package owa
 //@   refines model.BiasListener.Merge with validParams=owaValid, coversId=owaCovers, accepts=owaAccepts, acceptsAny=owaAcceptsAny
 //@   loop 1 invariant [converted] forall q string :: seen(q) ==> exists j int :: 0 <= j && j < len(added) && added[j].Id == q
 //@   loop 1 invariant [ctx] typeis(addition, model.WeightType) && !typeis(addition, owaParams) && fresh(added) && typeis(params, owaParams) && params.(owaParams).Weights != nil
+
+// ---- the method itself (C03)
+
+//@ spec zipsum(ws []model.WeightedCriterion, vs []float64, n int) real = n <= 0 ? 0.0 : zipsum(ws, vs, n - 1) + vs[n - 1] * ws[n - 1].Weight
+
+//@ func calculateTotalAlternativeValue
+//@   property C03
+//@   ensures [zip_sum] result == zipsum(*sortedWeights, *sortedCriteriaWeights, len(*sortedWeights))
+//@   loop 1 invariant [partial] total == zipsum(*sortedWeights, *sortedCriteriaWeights, iter)
+
+//@ func sortAlternativeCriteriaWeights
+//@   property C03 C02
+//@   ensures [ascending] fresh(result) && fresh(*result) && forall i int, j int :: 0 <= i && i < j && j < len(*result) ==> (*result)[i] <= (*result)[j]
+//@   ensures [values_of_the_alternative] forall k int :: 0 <= k && k < len(*result) ==> (*result)[k] == 0.0 || exists key string :: key in alternative.Criteria && (*result)[k] == alternative.Criteria[key]
+//@   loop 1 invariant [ctx] fresh(tmpCriteria) && i >= 0
+//@   loop 1 invariant [filled] forall k int :: 0 <= k && k < len(tmpCriteria) ==> tmpCriteria[k] == 0.0 || exists key string :: key in alternative.Criteria && tmpCriteria[k] == alternative.Criteria[key]
+
+//@ func sortWeights
+//@   property C03
+//@   ensures [ascending_copy] fresh(result) && fresh(*result) && len(*result) == len(*weights)
+//@             && forall i int, j int :: 0 <= i && i < j && j < len(*result) ==> (*result)[i].Weight <= (*result)[j].Weight
+//@   ensures [members] forall k int :: 0 <= k && k < len(*result) ==> exists j int :: 0 <= j && j < len(*weights) && (*result)[k] == (*weights)[j]
+//@   ensures [input_untouched] unchanged(*weights)
+
+//@ func validateSameCriteriaAndWeightsCount
+//@   property C03 C20
+//@   panics_iff [count_mismatch] len(alternative.Criteria) != len(*weights)
+
+//@ func owa
+//@   property C03
+//@   ensures [single_value] result != nil && typeis(result.Evaluation, model.EvaluationSingleValue) && result.Alternative == *alternative
+//@ func OWA
+//@   property C03
+//@   ensures [single_value] result != nil && typeis(result.Evaluation, model.EvaluationSingleValue) && result.Alternative == alternative
